@@ -92,6 +92,13 @@ def row_aggregate(it, kind, seq, st):
             return r
         return None
     nm = _sym(seq.elem)
+    if nm in it.celllens and seq.elem == Lin.sym(nm):
+        # the "row aggregate" is the length of one particular cell of the row: the other columns are not measured
+        cell = it.celllens[nm]
+        if cell.row == seq.var:
+            it.__dict__.setdefault("partial", set()).add("%slen(%s)" % (kind, cell.src.name))
+            return Lin.sym("%slen(part of %s)" % (kind, cell.src.name))
+        return None
     if nm in rows:
         k2, panel, row, full = rows[nm]
         if row != seq.var:
@@ -1463,9 +1470,61 @@ def r2_simple(ctx, repo):
                 want = "from_3d_numpy_to_2d_array(X)"
             ctx.check(good, "R2", c + ":converter", "%s input -> %s" % (kind, want),
                       "%s input is flattened by %r, expected %s" % (kind, inner, want), loc)
+    # model conformance of from_3d_numpy_to_2d_array: rows = instances, row-major (column-then-time) flattening that does not
+    # depend on the memory layout of the input
+    DP = "sktime/utils/data_processing.py"
+    hf = repo.func(DP, "from_3d_numpy_to_2d_array")
+    it = mk_interp(repo, no_inline=())
+    X3 = Src("X", "np3")
+    traces, _ = it.run_function(Frame(repo.module(DP), hf), {astq.param_names(hf)[0]: X3}, State())
+    vals = [v for _, v in distinct_returns(traces)]
+    good, why = None, "returns %r" % (vals,)
+    if len(vals) == 1 and isinstance(vals[0], CallV) and vals[0].name in ("reshape", "numpy.reshape"):
+        cv = vals[0]
+        base_v = cv.recv if cv.name == "reshape" else (cv.args[0] if cv.args else None)
+        dims = list(cv.args if cv.name == "reshape" else cv.args[1:])
+        if len(dims) == 1 and isinstance(dims[0], Tup):
+            dims = list(dims[0].items)
+        order = cv.kwargs.get("order", K("C"))
+        if base_v == X3 and len(dims) == 2 and as_lin_val(dims[0]) == X3.shape[0] and set(cv.kwargs) <= {"order"}:
+            rest = as_lin_val(dims[1])
+            if rest == Lin.c(-1) or rest is not None and rest.symbols() and not rest.is_const():
+                good = order == K("C")
+                why = ("the instances are flattened with order=%r: the column-then-time order of the result then depends on the memory "
+                       "layout of the input (a Fortran-ordered / transposed-view panel is flattened time-then-column)" % (order,))
+                if not isinstance(order, K):
+                    good = None
+    ctx.check(good, "R2", "data_processing.from_3d_numpy_to_2d_array:row-major",
+              "X.reshape(n_instances, -1) in C order: one row per instance, columns then time", why, ctx.loc(repo.module(DP), hf))
     # TabularToSeriesAdaptor
     cls = repo.cls(ADAPT + ":TabularToSeriesAdaptor")
     mod = cls.module
+    hb = repo.func(ADAPT, "_from_2d_numpy_to_series")
+    it = mk_interp(repo, no_inline=())
+    xm = Src("x", "np2", [sym("m(x)"), sym("c(x)")])
+    pre = Facts()
+    pre.add_cmp(sym("c(x)"), ">=", 2, "scenario: several columns")
+    pre.add_cmp(sym("m(x)"), ">=", 1, "at least one time point")
+    hp = astq.param_names(hb)
+    traces, _ = it.run_function(Frame(mod, hb), {hp[0]: xm, hp[1] if len(hp) > 1 else "index": Opq("index")}, State(facts=pre))
+    vals = [v for _, v in distinct_returns(traces)]
+    good, why = None, "for a (n_timepoints, n_columns >= 2) array the helper returns %r" % (vals,)
+    if vals:
+        good = True
+        for v in vals:
+            if isinstance(v, CallV) and v.name == "pandas.DataFrame" and v.arg(0, "data") == xm:
+                continue
+            inner = v.arg(0, "data") if isinstance(v, CallV) and v.name in ("pandas.DataFrame", "pandas.Series") else None
+            shapers = [x for x in walk(inner) if isinstance(x, CallV) and x.name.split(".")[-1] in
+                       ("squeeze", "ravel", "flatten", "reshape")] if inner is not None else []
+            if shapers and any(x == xm for x in walk(inner)):
+                good = False
+                why = ("for several columns the array is passed through %s before it is wrapped (%r): a (1, k) result -- one time "
+                       "point, k columns -- loses its time axis and comes back as a series of k values" % (shapers[0].name, v))
+                break
+            good = None
+    ctx.check(good, "R2", "adapt._from_2d_numpy_to_series:shape", "a multi-column 2-d result is wrapped unchanged in a DataFrame "
+              "(rows = time points)", why, ctx.loc(mod, hb))
     hf = repo.func(ADAPT, "_from_series_to_2d_numpy")
     it = mk_interp(repo)
     traces, _ = it.run_function(Frame(mod, hf), {astq.param_names(hf)[0]: Z}, State())
@@ -2137,5 +2196,5 @@ def run(ctx):
     r3_all(ctx, repo)
     r3_history(ctx, repo)
     ctx.floor("R1", 80)
-    ctx.floor("R2", 126)
+    ctx.floor("R2", 128)
     ctx.floor("R3", 81)
